@@ -2368,3 +2368,10 @@ V('c16-marks-twin-inline-reset', 'C16', 'R16.6', STATE,
             if selected_ is not None:
                 selected_.discard_marks()
             raise''', expect='silent')
+V('c02-silence-live-flags', 'C02', 'R2.8', SEL,
+  '            _, msg_flags = flags_key_map[msg.uid]',
+  '            msg_flags = msg.permanent_flags')
+V('c02-silence-twin-get', 'C02', 'R2.8', SEL,
+  '            _, msg_flags = flags_key_map[msg.uid]',
+  '            _uid, msg_flags = self._messages._flags_key_map[msg.uid]',
+  expect='silent')
